@@ -253,6 +253,7 @@ pub enum Mode {
 }
 
 #[derive(Clone, Debug)]
+#[allow(dead_code)] // fields are shown through Debug in witnesses
 enum Outcome {
     Committed,
     BeginFailed(String),
@@ -443,7 +444,7 @@ const SHAPES: [Shape; 3] = [
     },
     Shape {
         name: "filled",
-        filler: 400,
+        filler: 250,
         arcsize: None,
     },
 ];
@@ -890,6 +891,10 @@ pub fn run(args: Args) {
             }
             let layers: &[Layer] = if k.idm_only() {
                 &[Layer::Idm]
+            } else if k == Kind::SchemaAttr {
+                // (very long transaction that cannot change any in-memory setting at this
+                // domain level: one layer is enough)
+                &[Layer::Idm]
             } else if tier == kvcore::Tier::Thorough || matches!(k, Kind::DomainRaise | Kind::AcpChange) {
                 &[Layer::Qs, Layer::Idm]
             } else if (k as usize) % 2 == 0 {
@@ -970,7 +975,7 @@ pub fn run(args: Args) {
         let Some((n, n_ops, log)) = counts.get(&(*s, *k, *l)) else {
             continue;
         };
-        let cap: u64 = tier.pick(60, 320);
+        let cap: u64 = tier.pick(60, 120);
         let ks: Vec<u64> = if *n <= cap.max(400) {
             (1..=*n).collect()
         } else {
@@ -1076,7 +1081,7 @@ pub fn run(args: Args) {
             let rt = kvcore::srv::rt();
             let file = env.dir.join(format!("chain-{w}.db"));
             let mut rng = Rng::new(kvcore::rng::mix(seed, w as u64, 44));
-            for i in 0..24 {
+            for i in 0..12 {
                 let s = i % nshapes;
                 let r = catch_unwind(AssertUnwindSafe(|| {
                     rt.block_on(run_chain(env, s, counts, &mut rng, &file, &mut acc))
